@@ -103,12 +103,15 @@ fn c10_instant(sys: &System) -> impl Fn(&Files) -> Option<(String, String)> + Sy
                             let l = declared_len.unwrap_or(content.len() as u64) as usize;
                             all.into_iter().take(l).collect()
                         };
-                        let verified = well_formed || declared_hash.map_or(h(content), |d| d) == h(&streamed);
+                        // verified = the bytes that arrive are exactly as many as declared AND hash to the declared hash
+                        let verified = well_formed || (declared_hash.map_or(h(content), |d| d) == h(&streamed) && streamed.len() as u64 == declared_len.unwrap_or(content.len() as u64));
                         if !verified {
                             continue;
                         }
                         let body = if well_formed { content.clone() } else { streamed };
-                        if (p == path || *p == format!("{path}.conflict-{}", short(&h(&body)))) && *bytes == body {
+                        let cbase = format!("{path}.conflict-{}", short(&h(&body)));
+                        let numbered = p.strip_prefix(cbase.as_str()).is_some_and(|r| r.len() > 1 && r.starts_with('-') && r[1..].chars().all(|c| c.is_ascii_digit()));
+                        if (p == path || *p == cbase || numbered) && *bytes == body {
                             ok = true;
                         }
                     }
@@ -323,6 +326,21 @@ fn late_and_leftover_systems() -> Vec<PairSpec> {
     v
 }
 
+/// A stale write whose natural conflict-copy name already holds OTHER content (somebody committed to that very
+/// path): neither content may vanish.
+fn occupied_systems() -> Vec<PairSpec> {
+    let cn = format!("f.conflict-{}", short(&h(Z)));
+    let mut init = init_tree(true);
+    init.insert(cn.clone(), b"other content committed to this very path".to_vec());
+    let o1 = vec![put("f", Exp::HashOf(b"stale".to_vec()), Z), Op::Get { path: cn.clone() }];
+    let o2 = vec![put("f", Exp::HashOf(b"stale".to_vec()), Z), put("f", Exp::HashOf(b"stale".to_vec()), Z), Op::Get { path: cn }];
+    vec![
+        PairSpec { name: "stale Put whose conflict name is occupied; Get(name)".into(), sys: System { init: init.clone(), programs: vec![o1.clone()], external: vec![], late: vec![] } },
+        PairSpec { name: "two stale Puts whose conflict name is occupied; Get(name)".into(), sys: System { init: init.clone(), programs: vec![o2], external: vec![], late: vec![] } },
+        PairSpec { name: "stale Put (occupied conflict name) || Get f".into(), sys: System { init, programs: vec![o1, vec![Op::Get { path: "f".into() }]], external: vec![], late: vec![] } },
+    ]
+}
+
 /// Requests that name a path which is a DIRECTORY on the hub (a file lives beneath it).
 fn dir_systems() -> Vec<PairSpec> {
     let mut init = Files::new();
@@ -399,6 +417,7 @@ pub fn run(ctx: &Ctx, which: &str) -> ! {
         specs.extend(triple_systems());
         specs.extend(dir_systems());
         specs.extend(late_and_leftover_systems());
+        specs.extend(occupied_systems());
         specs.extend(big_content_systems(true));
         let Some(spec) = specs.into_iter().find(|s| s.name == name) else { machinery_error(format!("unknown program pair {name}")) };
         let env = envs[0].lock().unwrap_or_else(|e| e.into_inner());
@@ -483,6 +502,9 @@ pub fn run(ctx: &Ctx, which: &str) -> ! {
     }
     for spec in late_and_leftover_systems() {
         run_spec(&spec, 2, false, &mut tot, &mut violations, &mut sample);
+    }
+    for spec in occupied_systems() {
+        run_spec(&spec, 1, which == "C10", &mut tot, &mut violations, &mut sample);
     }
     // three servers (a lock holder, a waiter queued behind it, and a late arrival) at bound 2
     for spec in triple_systems().into_iter().take(if thorough { 4 } else if which == "C03" { 1 } else { 0 }) {
